@@ -27,28 +27,19 @@ theorem decode_spec (b : Bytes) :
       ((∃ m, decode b = .msg m rest) ∨ (∃ e, decode b = .error e rest))) := by
   by_cases hs : b.length < 5
   · exact Or.inl (decode_short b hs)
-  · match b, hs with
-    | ty :: b1 :: b2 :: b3 :: b4 :: tl, _ =>
-      rw [decode_closed]
-      have hr := i32OfBytes_range b1 b2 b3 b4
-      simp only [declaredLen]
-      generalize i32OfBytes b1 b2 b3 b4 = L at hr ⊢
-      by_cases h4 : L < 4
-      · exact Or.inr (Or.inl ⟨L, rfl, h4, by simp [h4]⟩)
-      · rw [if_neg h4]
-        by_cases hl : tl.length + 4 < L.toNat
-        · exact Or.inl (by rw [if_pos hl])
-        · rw [if_neg hl]
-          refine Or.inr (Or.inr ⟨ty :: b1 :: b2 :: b3 :: b4 :: tl.take (L.toNat - 4),
-            tl.drop (L.toNat - 4), L, ?_, rfl, by omega, ?_, decodeBody_cases _ _ _⟩)
-          · simp
-          · simp only [List.length_cons, List.length_take]
-            omega
-    | [], h => simp at h
-    | [_], h => simp at h
-    | [_, _], h => simp at h
-    | [_, _, _], h => simp at h
-    | [_, _, _, _], h => simp at h
+  · obtain ⟨ty, b1, b2, b3, b4, tl, rfl⟩ := five_cons b hs
+    rw [decode_closed, declaredLen_cons]
+    generalize i32OfBytes b1 b2 b3 b4 = L
+    by_cases h4 : L < 4
+    · exact Or.inr (Or.inl ⟨L, rfl, h4, by rw [if_pos h4]⟩)
+    · rw [if_neg h4]
+      by_cases hl : tl.length + 4 < L.toNat
+      · exact Or.inl (by rw [if_pos hl])
+      · rw [if_neg hl]
+        have h4' : 4 ≤ L := by omega
+        exact Or.inr (Or.inr ⟨ty :: b1 :: b2 :: b3 :: b4 :: tl.take (L.toNat - 4),
+          tl.drop (L.toNat - 4), L, split_eq5 _ _ _ _ _ _ _, rfl, h4',
+          frame_len5 _ _ _ _ _ _ _ h4' hl, decodeBody_cases _ _ _⟩)
 
 theorem decodeStartup_spec (b : Bytes) :
     decodeStartup b = .needMore ∨
@@ -58,28 +49,20 @@ theorem decodeStartup_spec (b : Bytes) :
       ((∃ m, decodeStartup b = .msg m rest) ∨ (∃ e, decodeStartup b = .error e rest))) := by
   by_cases hs : b.length < 4
   · exact Or.inl (decodeStartup_short b hs)
-  · match b, hs with
-    | b0 :: b1 :: b2 :: b3 :: tl, _ =>
-      rw [decodeStartup_closed]
-      have hr := i32OfBytes_range b0 b1 b2 b3
-      simp only [declaredLenStartup]
-      generalize i32OfBytes b0 b1 b2 b3 = L at hr ⊢
-      by_cases h8 : L < 8
-      · exact Or.inr (Or.inl ⟨L, rfl, h8, by simp [h8]⟩)
-      · rw [if_neg h8]
-        by_cases hl : tl.length + 4 < L.toNat
-        · exact Or.inl (by rw [if_pos hl])
-        · rw [if_neg hl]
-          refine Or.inr (Or.inr ⟨b0 :: b1 :: b2 :: b3 :: tl.take (L.toNat - 4),
-            tl.drop (L.toNat - 4), L, ?_, rfl, by omega, ?_,
-            startupBody_cases _ _ (by simp only [List.length_take]; omega)⟩)
-          · simp
-          · simp only [List.length_cons, List.length_take]
-            omega
-    | [], h => simp at h
-    | [_], h => simp at h
-    | [_, _], h => simp at h
-    | [_, _, _], h => simp at h
+  · obtain ⟨b0, b1, b2, b3, tl, rfl⟩ := four_cons b hs
+    rw [decodeStartup_closed, declaredLenStartup_cons]
+    generalize i32OfBytes b0 b1 b2 b3 = L
+    by_cases h8 : L < 8
+    · exact Or.inr (Or.inl ⟨L, rfl, h8, by rw [if_pos h8]⟩)
+    · rw [if_neg h8]
+      by_cases hl : tl.length + 4 < L.toNat
+      · exact Or.inl (by rw [if_pos hl])
+      · rw [if_neg hl]
+        have h8' : 8 ≤ L := by omega
+        exact Or.inr (Or.inr ⟨b0 :: b1 :: b2 :: b3 :: tl.take (L.toNat - 4),
+          tl.drop (L.toNat - 4), L, split_eq4 _ _ _ _ _ _, rfl, h8',
+          frame_len4 _ _ _ _ _ _ (by omega) hl,
+          startupBody_cases _ _ (take_len_ge4 tl L h8' hl)⟩)
 
 /-- (i) `FrontendMessage::decode` never panics, whatever the bytes (negative, short, oversized
     length fields, missing terminators, invalid UTF-8 …) -/
@@ -159,47 +142,37 @@ theorem C27_startup_error_bound (b : Bytes) (e : ProtoErr) (rest : Bytes)
 theorem C27_decode_need_more_iff (b : Bytes) :
     decode b = .needMore ↔
       b.length < 5 ∨ ∃ L, declaredLen b = some L ∧ 4 ≤ L ∧ (b.length : Int) < 1 + L := by
-  constructor
-  · intro h
-    by_cases hs : b.length < 5
-    · exact Or.inl hs
-    · match b, hs with
-      | ty :: b1 :: b2 :: b3 :: b4 :: tl, _ =>
-        rw [decode_closed] at h
-        simp only [declaredLen]
-        generalize i32OfBytes b1 b2 b3 b4 = L at h ⊢
-        by_cases h4 : L < 4
-        · simp [h4] at h
-        · rw [if_neg h4] at h
-          by_cases hl : tl.length + 4 < L.toNat
-          · refine Or.inr ⟨L, rfl, by omega, ?_⟩
-            simp only [List.length_cons]; omega
-          · rw [if_neg hl] at h
-            rcases decodeBody_cases ty (tl.take (L.toNat - 4)) (tl.drop (L.toNat - 4)) with
-              ⟨_, h'⟩ | ⟨_, h'⟩ <;> rw [h'] at h <;> simp at h
-      | [], h => simp at h
-      | [_], h => simp at h
-      | [_, _], h => simp at h
-      | [_, _, _], h => simp at h
-      | [_, _, _, _], h => simp at h
-  · rintro (hs | ⟨L, hd, h4, hl⟩)
-    · exact decode_short b hs
-    · match b, hd with
-      | ty :: b1 :: b2 :: b3 :: b4 :: tl, hd =>
-        rw [decode_closed]
-        simp only [declaredLen, Option.some.injEq] at hd
-        rw [hd, if_neg (by omega), if_pos]
-        simp only [List.length_cons] at hl
-        omega
-      | [], hd => simp [declaredLen] at hd
-      | [_], hd => simp [declaredLen] at hd
-      | [_, _], hd => simp [declaredLen] at hd
-      | [_, _, _], hd => simp [declaredLen] at hd
-      | [_, _, _, _], hd => simp [declaredLen] at hd
+  by_cases hs : b.length < 5
+  · exact ⟨fun _ => Or.inl hs, fun _ => decode_short b hs⟩
+  · obtain ⟨ty, b1, b2, b3, b4, tl, rfl⟩ := five_cons b hs
+    rw [decode_closed, declaredLen_cons]
+    generalize i32OfBytes b1 b2 b3 b4 = L
+    have hlen : ((ty :: b1 :: b2 :: b3 :: b4 :: tl).length : Int) = tl.length + 5 := by
+      simp only [List.length_cons]; omega
+    rw [hlen]
+    by_cases h4 : L < 4
+    · rw [if_pos h4]
+      constructor
+      · intro h; exact absurd h (by simp)
+      · rintro (h | ⟨L', hL, h4', _⟩)
+        · exact absurd h hs
+        · simp only [Option.some.injEq] at hL; omega
+    · rw [if_neg h4]
+      by_cases hl : tl.length + 4 < L.toNat
+      · rw [if_pos hl]
+        exact ⟨fun _ => Or.inr ⟨L, rfl, by omega, by omega⟩, fun _ => rfl⟩
+      · rw [if_neg hl]
+        constructor
+        · intro h
+          rcases decodeBody_cases ty (tl.take (L.toNat - 4)) (tl.drop (L.toNat - 4)) with
+            ⟨_, h'⟩ | ⟨_, h'⟩ <;> rw [h'] at h <;> exact absurd h (by simp)
+        · rintro (h | ⟨L', hL, h4', hlt⟩)
+          · exact absurd h hs
+          · simp only [Option.some.injEq] at hL; omega
 
 /-! ### (iii) decoding an encoding gives the message back and leaves the tail untouched -/
 
-theorem decode_string_frame (ty : UInt8) (s rest : Bytes) (hw : wfStr s = true)
+theorem decode_string_frame (ty : UInt8) (s rest : Bytes)
     (hl : 4 + (s.length + 1) < 2147483648) :
     decode (ty :: (be32 (4 + (s.length + 1)) ++ cstr s) ++ rest) =
       decodeBody ty (s ++ [0]) rest := by
@@ -221,14 +194,14 @@ theorem C27_decode_roundtrip (m : FrontendMsg) (rest : Bytes) (hw : wfMsg m) :
   cases m with
   | query q =>
     obtain ⟨hs, hl⟩ := hw
-    have := decode_string_frame 0x51 q rest hs hl
+    have := decode_string_frame 0x51 q rest hl
     simp only [encodeFrontend]
     rw [this]
     have hr : readCString (q ++ [0]) = .ok (q, []) := readCString_append [] hs
     simp [decodeBody, hr]
   | password p =>
     obtain ⟨hs, hl⟩ := hw
-    have := decode_string_frame 0x70 p rest hs hl
+    have := decode_string_frame 0x70 p rest hl
     simp only [encodeFrontend]
     rw [this]
     have hr : readCString (p ++ [0]) = .ok (p, []) := readCString_append [] hs
@@ -277,7 +250,6 @@ theorem C27_startup_roundtrip (m : FrontendMsg) (rest : Bytes) (hw : wfStartup m
   | sslRequest =>
     have e : encodeStartup .sslRequest ++ rest = 0 :: 0 :: 0 :: 8 :: 4 :: 210 :: 22 :: 47 :: rest := by
       simp [encodeStartup, be32, be32i, sslRequestCode]
-      decide
     rw [e, decodeStartup_closed]
     have h8 : i32OfBytes 0 0 0 8 = 8 := by decide
     rw [h8]
@@ -287,6 +259,14 @@ theorem C27_startup_roundtrip (m : FrontendMsg) (rest : Bytes) (hw : wfStartup m
   | password _ => exact absurd hw (by simp [wfStartup])
   | terminate => exact absurd hw (by simp [wfStartup])
 
+/-- the declared length of a buffer is fixed by its first five bytes -/
+theorem declaredLen_take (b : Bytes) (k : Nat) (hk : 5 ≤ k) : declaredLen (b.take k) = declaredLen b := by
+  by_cases hs : b.length < 5
+  · rw [List.take_of_length_le (by omega)]
+  · obtain ⟨ty, b1, b2, b3, b4, tl, rfl⟩ := five_cons b hs
+    obtain ⟨j, rfl⟩ : ∃ j, k = j + 5 := ⟨k - 5, by omega⟩
+    rfl
+
 /-- every strict prefix of a frame asks for more bytes (and consumes nothing) -/
 theorem C27_decode_prefix_need_more (m : FrontendMsg) (rest : Bytes) (hw : wfMsg m) (k : Nat)
     (hk : k < (encodeFrontend m).length) :
@@ -295,24 +275,16 @@ theorem C27_decode_prefix_need_more (m : FrontendMsg) (rest : Bytes) (hw : wfMsg
   rw [List.append_nil] at hrt
   obtain ⟨frame, L, hb, hd, h4, hl⟩ := C27_decode_frame_bound _ _ _ hrt
   rw [List.append_nil] at hb
-  have htake : (encodeFrontend m ++ rest).take k = (encodeFrontend m).take k := by
-    rw [List.take_append_of_le_length (by omega)]
+  have htake : (encodeFrontend m ++ rest).take k = (encodeFrontend m).take k :=
+    List.take_append_of_le_length (by omega)
   rw [htake]
   apply (C27_decode_need_more_iff _).mpr
   by_cases h5 : k < 5
-  · left; simp only [List.length_take]; omega
+  · left; rw [List.length_take]; omega
   · right
     refine ⟨L, ?_, h4, ?_⟩
-    · match hm : encodeFrontend m, hd, hk with
-      | ty :: b1 :: b2 :: b3 :: b4 :: tl, hd, hk =>
-        obtain ⟨j, rfl⟩ : ∃ j, k = j + 5 := ⟨k - 5, by omega⟩
-        simpa [declaredLen] using hd
-      | [], hd, _ => simp [declaredLen] at hd
-      | [_], hd, _ => simp [declaredLen] at hd
-      | [_, _], hd, _ => simp [declaredLen] at hd
-      | [_, _, _], hd, _ => simp [declaredLen] at hd
-      | [_, _, _, _], hd, _ => simp [declaredLen] at hd
-    · simp only [List.length_take]
+    · rw [declaredLen_take _ _ (by omega)]; exact hd
+    · rw [List.length_take]
       rw [← hb] at hl
       omega
 
